@@ -97,6 +97,16 @@ CALLBACKS = [
     ("mutator", "function (v, i, arr) { __out([v, i]); if (n++ === 0) { arr.pop(); arr.pop() } return {C} }", ""),
     ("mutator", "function (v, i, arr) { __out([v, i]); if (i + 1 < arr.length) arr[i + 1] = 50 + i; return {C} }", ""),
     ("mutator", "function (v, i, arr) { __out([v, i]); if (n++ === 0) arr.shift(); return {C} }", ""),
+    ("mutator", "function (v, i, arr) { __out([v, i]); if (n++ === 0) arr.splice(1, 1); return {C} }", ""),
+    ("mutator", "function (v, i, arr) { __out([v, i]); if (n++ === 0) arr.splice(0, 0, 9, 8); return {C} }", ""),
+    ("mutator", "function (v, i, arr) { __out([v, i]); if (n++ === 1) arr.splice(0, arr.length, 6, 5, 4, 3); return {C} }", ""),
+    ("mutator", "function (v, i, arr) { __out([v, i]); if (n++ === 0) arr.length = 1; return {C} }", ""),
+    ("mutator", "function (v, i, arr) { __out([v, i]); if (n++ === 0) { arr.length = 0; arr.push(4, 5, 6, 7) } return {C} }", ""),
+    ("mutator", "function (v, i, arr) { __out([v, i]); if (n++ === 0) arr.length = arr.length + 2; return {C} }", ""),
+    ("mutator", "function (v, i, arr) { __out([v, i]); if (n++ === 0) arr.reverse(); return {C} }", ""),
+    ("mutator", "function (v, i, arr) { __out([v, i]); if (n++ === 0) arr.sort(); return {C} }", ""),
+    ("mutator", "function (v, i, arr) { __out([v, i]); if (n++ === 0) arr.unshift(5); return {C} }", ""),
+    ("mutator", "function (v, i, arr) { __out([v, i]); if (n++ === 0) { arr[0] = 77; arr[arr.length - 1] = 78 } return {C} }", ""),
     ("nonboolean", 'function (v, i) { return [0, "", NaN, null, undefined, -0][i] }', ""),
     ("nonboolean", 'function (v, i) { return [[], "0", {}, -1, "f", Infinity][i] }', ""),
     ("nonboolean", 'function (v, i) { return ["", [], 0, "0", NaN, {}][i] }', ""),
@@ -111,6 +121,11 @@ REDUCE_CB = [
     ("mutator", "function (acc, v, i, arr) { __out([acc, v, i]); if (n++ === 0) arr.push(7); return acc }"),
     ("mutator", "function (acc, v, i, arr) { __out([acc, v, i]); if (n++ === 0) { arr.pop(); arr.pop() } return acc }"),
     ("mutator", "function (acc, v, i, arr) { __out([acc, v, i]); if (n++ === 0) arr.shift(); return acc }"),
+    ("mutator", "function (acc, v, i, arr) { __out([acc, v, i]); if (n++ === 0) arr.splice(1, 1); return acc }"),
+    ("mutator", "function (acc, v, i, arr) { __out([acc, v, i]); if (n++ === 0) arr.splice(0, 0, 9, 8); return acc }"),
+    ("mutator", "function (acc, v, i, arr) { __out([acc, v, i]); if (n++ === 0) arr.length = 1; return acc }"),
+    ("mutator", "function (acc, v, i, arr) { __out([acc, v, i]); if (n++ === 0) { arr.length = 0; arr.push(4, 5, 6, 7) } return acc }"),
+    ("mutator", "function (acc, v, i, arr) { __out([acc, v, i]); if (n++ === 0) arr.reverse(); return acc }"),
     ("throws", 'function (acc, v, i) { __out(i); if (i === 1) throw "boom"; return acc }'),
 ]
 INITIAL = ["", ", 0", ", undefined", ', "s"']
@@ -420,6 +435,66 @@ def typed_view_cases():
     return out
 
 
+def typed_copy_cases():
+    """a typed array built FROM another typed array (constructor, set, subarray of subarray) after the shared buffer was written
+    through a view of another kind"""
+    out = []
+    for k1 in KINDS:
+        for k2 in KINDS:
+            for p, pat in enumerate(PATTERNS[:6] + PATTERNS[9:10]):
+                src = ("var buf = new ArrayBuffer(16); var x = new %s(buf); var y = new %s(buf); var p = %s; "
+                       "var c0 = new %s(y); for (var i = 0; i < x.length; i++) x[i] = p[i]; "
+                       "var c = new %s(y); var d = new %s(y.subarray(1)); var e = new %s(y); var f = new %s(y.length); f.set(y); "
+                       "var g = new %s(y.length); g.set(y.subarray(1), 1); var h = y.subarray(1).subarray(1); x[x.length - 1] = p[3]; "
+                       "__out(c0); __out(c); __out(d); __out(e); __out(f); __out(g); __out(h); __out(c.buffer === buf); new %s(h)"
+                       % (k1, k2, pat, k2, k2, k2, k1, k2, k1, k2))
+                _case(out, src, "copies", True, kind=k1 + "->" + k2)
+    return out
+
+
+def run_join_state(payload):
+    """inline oracle: converting arrays to strings gives the same answers after k conversions that failed (nesting too deep,
+    a throwing element) as before them - in the same evaluation, in a later evaluation on the same context and on a new one"""
+    from mc.props.common import engine
+    e = engine()
+    k, depth, how = payload["k"], payload["depth"], payload["how"]
+    probes = ("function probes() { var o = []; var ps = [function () { return [1, [2, [3, [4]]]].join() }, function () { return String(ok) }, "
+              "function () { return '' + [ok, ok] }, function () { return 'x'.concat(ok) }, function () { return [[], [[]], [null], [undefined, 1]].join('-') }, "
+              "function () { var d = [5]; for (var i = 0; i < 90; i++) { d = [d] } return d.join() }, "
+              "function () { try { return 'no error: ' + bad.join() } catch (err) { return err.name } }, "
+              "function () { try { return 'no error: ' + String([bad]) } catch (err) { return err.name } }, "
+              "function () { try { return 'no error: ' + inner.join() } catch (err) { return err.name } }]; "
+              "for (var i = 0; i < ps.length; i++) { try { o.push(ps[i]()) } catch (err) { o.push('E:' + err.name) } } return o.join('~') } ")
+    if how == "deep":
+        mk = "var bad = [7]; var inner; for (var i = 0; i < %d; i++) { if (i === 20) { inner = bad } bad = [bad] } " % depth
+    elif how == "thrower":
+        mk = "var inner = [{toString: function () { throw new RangeError('t') }}]; var bad = [1, [2, inner]]; "
+    else:       # cyclic
+        mk = "var inner = [1]; var bad = [inner, 2]; inner.push(bad); "
+    src1 = ("var ok = [1, [2, 3], 'x']; " + mk + probes + "var before = probes(); for (var j = 0; j < %d; j++) { try { bad.join() } catch (err) { } "
+            "try { String(bad) } catch (err) { } try { 'x'.concat([bad]) } catch (err) { } } var after = probes(); "
+            "__out(before === after ? 'same' : before + ' / ' + after); before" % k)
+    oc1, ctx = e.run_program(src1, tl=20000, want_ctx=True)
+    log1, _, tail1 = oc1.rpartition("|")
+    if not tail1.startswith("R") or 'same' not in log1:
+        return "within one evaluation: %s\x00ok" % oc1[:300]
+    # a fresh context, evaluated after the failures, must give the same `before`
+    src2 = "var ok = [1, [2, 3], 'x']; " + mk + probes + "probes()"
+    oc2 = e.run_program(src2, tl=20000)
+    if oc2.rpartition("|")[2] != tail1:
+        return "fresh context after %d failed conversions: %s instead of %s\x00ok" % (k, oc2[-200:], tail1[-200:])
+    return "ok\x00ok"
+
+
+def join_state_cases():
+    out = []
+    for how, depths in (("deep", (99, 100, 101, 102, 150, 400)), ("thrower", (0,)), ("cyclic", (0,))):
+        for depth in depths:
+            for k in (1, 2, 5, 40, 120):
+                out.append(("%s%s, %d failed conversions" % (how, " depth %d" % depth if depth else "", k), {"how": how, "depth": depth, "k": k}))
+    return out
+
+
 # ------------------------------------------------------------------------------------------ spaces
 
 def nontrivial(cid, payload, exp):
@@ -465,6 +540,14 @@ def core_spaces():
                "all 81 ordered pairs of kinds as two views over one 16-byte ArrayBuffer x 12 value patterns written "
                "through the first and read through the second, then two stores through the second read through the first",
                "81 x 12"),
+        _space("c17_typed_copy", typed_copy_cases,
+               "all 81 ordered pairs of kinds: typed arrays built from a view (constructor before and after the writes, constructor "
+               "from a subarray, set(view), set(subarray, offset), subarray of a subarray) after the shared buffer was written through "
+               "a view of the other kind, 7 value patterns; the copies must not share the buffer", "81 x 7"),
+        Space("c17_join_state", "mc.props.c17:run_join_state", join_state_cases, oracle="inline", batch=1, watchdog=120,
+              rule="9 array-to-string probes (join, String, +, concat; nesting up to 90; the failing arrays themselves) give the same "
+                   "answers before and after k in {1,2,5,40,120} failed conversions (nesting 99..400 deep, a throwing element, a "
+                   "cycle through three entry points), and on a fresh context afterwards", bound="8 failure shapes x 5 repetition counts"),
     ]
 
 
